@@ -86,6 +86,8 @@ type Sim struct {
 	escrowGifts  map[string]*big.Int
 	resyncPause  bool
 	lastDigests map[string]string
+	qNode       *Node  // when set, ABCI queries of the audits go to this instance
+	qTag        string // and their fingerprints carry this tag
 }
 
 func NewSim(prof *Profile) *Sim { return newSimWith(prof, nil) }
@@ -147,11 +149,15 @@ func (s *Sim) execBlock(op Op) {
 	if s.ModeB != nil && op.Inject != "" && len(txs) == 1 {
 		if m, ok := txs[0].Meta.(*txMeta); ok && m.Kind == "recv" && len(m.Pkts) == 1 && m.Pkts[0].State == PktInFlight {
 			var idx, mode int
-			if _, err := fmt.Sscanf(op.Inject, "%d:%d", &idx, &mode); err == nil && (mode == faultBefore || mode == faultAfter) {
+			if _, err := fmt.Sscanf(op.Inject, "%d:%d", &idx, &mode); err == nil && (mode == faultBefore || mode == faultAfter || mode == faultPanic) {
 				s.ModeB.Reset(map[int]int{idx: mode})
 				inject = true
 			}
 		}
+	}
+	if op.Crash && !s.dirtyState && !inject {
+		s.N.CrashBeforeCommit = true
+		s.Stats.Fault("crash_between_execution_and_commit")
 	}
 	s.produceBlock(txs, dt, op.ID)
 	if inject {
@@ -159,7 +165,13 @@ func (s *Sim) execBlock(op Op) {
 		p := m.Pkts[0]
 		if len(s.ModeB.Plan.Fired) > 0 {
 			site := s.ModeB.Plan.Calls[s.ModeB.Plan.Fired[0]].Site
-			s.Stats.Fault("injected_error:" + site)
+			if s.ModeB.Plan.Fail[s.ModeB.Plan.Fired[0]] == faultPanic {
+				if site != "bank.GetBalance" { // a balance read has no error to return and is not made to panic
+					s.Stats.Fault("injected_panic:" + site)
+				}
+			} else {
+				s.Stats.Fault("injected_error:" + site)
+			}
 			s.Stats.Count("rule:C03.injected-in-history")
 			if site != "bank.GetBalance" && p.State == PktReceived && decodeAck(p.Ack).Success {
 				s.violate("C03", "failure-implies-error-ack", "swallowed-failure (random history) site="+site, fmt.Sprintf("packet op=%d: call %s failed (%s) during its delivery but the acknowledgement is a success", p.Origin, site, op.Inject))
@@ -188,6 +200,9 @@ func (s *Sim) produceBlock(txs []*PendingTx, dtSec int, opID int) {
 		preDig = s.lastDigests
 	}
 	res := s.N.Block(txs, time.Duration(dtSec)*time.Second)
+	if s.N.CrashDiff != "" {
+		s.violate("C19", "replay-identical", "re-execution-after-crash-differs", fmt.Sprintf("block %d was executed, the node crashed before committing it, and the second execution after the restart differs: %s", s.N.Height, s.N.CrashDiff))
+	}
 	s.dirtyState = false
 	s.Stats.Blocks++
 	s.Stats.SimSeconds += int64(dtSec)
@@ -301,7 +316,12 @@ func (s *Sim) handleTx(t *PendingTx, m *txMeta, obs *TxObs, r *abci.ExecTxResult
 	if kind == "recv" {
 		s.Stats.Count("rule:C14.no-panic")
 	}
-	if obs.IsPanic() && kind == "recv" {
+	injectedPanic := obs.IsPanic() && s.ModeB != nil && len(s.ModeB.Plan.Fired) > 0 && s.ModeB.Plan.Fail[s.ModeB.Plan.Fired[0]] == faultPanic
+	if injectedPanic {
+		// the harness made a downstream module panic: an aborted transaction is a legitimate outcome
+		s.Stats.Count("injected_panic_aborted_tx")
+	}
+	if obs.IsPanic() && kind == "recv" && !injectedPanic {
 		if os.Getenv("VERIF_STACK") != "" {
 			fmt.Println(obs.Log)
 		}
@@ -328,7 +348,7 @@ func (s *Sim) handleTx(t *PendingTx, m *txMeta, obs *TxObs, r *abci.ExecTxResult
 			if len(m.Pkts) > 1 && obs.IsPanic() {
 				s.Stats.Fault("batch_with_poison_packet")
 			}
-			if len(m.Pkts) == 1 && obs.IsPanic() {
+			if len(m.Pkts) == 1 && obs.IsPanic() && !injectedPanic {
 				m.Pkts[0].Poisoned = true
 			}
 		}
